@@ -459,6 +459,9 @@ func init() {
 		Exec:             c09Exec,
 		CrashIsViolation: true,
 		RaceIsViolation:  true,
-		Exhaustive:       func(string) bool { return false },
+		// a resumed (or first) scan whose goroutines are all blocked for good yields nothing:
+		// the dump classification decides, a merely slow case stays inconclusive
+		HangIsViolation: true,
+		Exhaustive:      func(string) bool { return false },
 	})
 }
